@@ -66,7 +66,7 @@ pub fn main(args: &Args) -> i32 {
         }
         gate.disarm_all();
         session_probe(&mut rep);
-        if shard == 0 { rtr_timing_probe(&mut rep); initial_probe(&mut rep); burst_probe(&mut rep); }
+        if shard == 0 { rtr_timing_probe(&mut rep); initial_probe(&mut rep); burst_probe(&mut rep); full_history_probe(&mut rep); }
     }
     for (idx, b) in behaviours.iter().enumerate() {
         if idx % nshards != shard { continue }
@@ -747,6 +747,44 @@ fn burst_probe(rep: &mut Report) {
         }
         if in_one_second >= 3 { rep.nontrivial("C16", format!("burst|{round}|{in_one_second}")); rep.add_note("C16", "bursts_with_three_runs_in_one_second", 1); }
         rep.add_note("C16", "bursts", 1);
+    }
+}
+
+/// A long-poll parked with the current version while the retained history is already full (more changes than
+/// history-size): the next change must wake it like any other.
+fn full_history_probe(rep: &mut Report) {
+    for keep in [1usize, 2, 10] {
+        let mut fx = Fixture::start(move |c| { c.history_size = keep; });
+        let port = fx.http_port;
+        let mut d = 1i64;
+        if fx.process_once(&slurm(&concrete(d)), true).is_err() { rep.divergence("C17", "full-history probe: first run failed"); return }
+        for round in 0..(keep + 3) {
+            let (session, serial) = { let r = fx.history.read(); (r.session(), u32::from(r.serial())) };
+            let path = format!("/json-delta/notify?session={session}&serial={serial}");
+            let (tx, rx) = std::sync::mpsc::channel();
+            std::thread::spawn(move || { let _ = tx.send(http_request(port, "GET", &path, &[], None, Duration::from_secs(8)).map(|r| (r.status, r.body))); });
+            std::thread::sleep(Duration::from_millis(150));          // the request is parked
+            d = 1 + d % 3;
+            if fx.process_once(&slurm(&concrete(d)), false).is_err() { rep.divergence("C17", "full-history probe: run failed"); return }
+            let now = { let r = fx.history.read(); u32::from(r.serial()) };
+            rep.eval("C17");
+            rep.nontrivial("C17", format!("full-history/{keep}/{round}"));
+            let ctx = json!({"probe": "long-poll parked while the retained history is full", "history_size": keep, "changes_so_far": round + 1,
+                             "presented_serial": serial, "served_serial": now});
+            match rx.recv_timeout(Duration::from_secs(4)) {
+                Ok(Ok((200, body))) => {
+                    let v: Value = serde_json::from_slice(&body).unwrap_or(Value::Null);
+                    if v["serial"].as_u64() != Some(now as u64) {
+                        rep.violation("C17", "notify-wrong-version", "notify answered with something else than the served version", ctx, json!({"body": v}));
+                    }
+                }
+                Ok(Ok((st, _))) => rep.violation("C17", "notify-bad-status", format!("notify answered with status {st}"), ctx, json!({})),
+                _ => rep.violation("C17", "lost-wakeup/history-full",
+                    format!("the served version changed (serial {serial} -> {now}); the long-poll presenting serial {serial} is still waiting after 4 s ({} changes, history-size {keep})", round + 1),
+                    ctx, json!({})),
+            }
+        }
+        rep.trace("C17");
     }
 }
 
